@@ -5,16 +5,17 @@
 (* prints each scenario; the harness runs them on the real code.             *)
 EXTENDS FlowSem
 ----------------------------------------------------------------------------
-CONSTANTS MaxN, MaxDur
+CONSTANTS MaxN, Durs      \* durations of the activities; 99 stands for infinity (the harness passes math.inf)
 VARIABLES sc
 Scenarios ==
-  [op : {"collect"}, acts : UNION {[1..n -> [d : 0..MaxDur, f : BOOLEAN]] : n \in 0..MaxN}, k : {0},
-   cons : {"prompt", "cancel1", "close1"}]
+  [op : {"collect"}, acts : UNION {[1..n -> [d : Durs, f : BOOLEAN]] : n \in 0..MaxN}, k : {0},
+   cons : {"prompt", "cancel1", "close1", "until1"}]
   \cup
-  [op : {"first"}, acts : UNION {[1..n -> [d : 0..MaxDur, f : BOOLEAN]] : n \in 1..MaxN},
-   k : {0, 1, 2, 3, 4, 99}, cons : {"prompt", "slow", "break1", "cancel1", "close1"}]
+  [op : {"first"}, acts : UNION {[1..n -> [d : Durs, f : BOOLEAN]] : n \in 1..MaxN},
+   k : {0, 1, 2, 3, 4, 99}, cons : {"prompt", "slow", "break1", "cancel1", "close1", "until1"}]
 \* consumer behaviours: prompt / slow (suspends between results) / break1 (leaves the iteration after one result) /
-\* cancel1 (the caller is cancelled at +1) / close1 (the caller is a volatile task closed forcefully at +1)
+\* cancel1 (the caller is cancelled at +1) / close1 (the caller is a volatile task closed forcefully at +1) /
+\* until1 (the call is made inside `async with until(time + 1)`: the interrupt of that block passes through it)
 Init == sc \in Scenarios
 Next == UNCHANGED sc
 Spec == Init /\ [][Next]_sc
